@@ -229,7 +229,7 @@ class SingleItemEncoder(object):
 
         if LOG:
             LOG('encoder %s produced: '
-                '%s' % (type(concreteEncoder).__name__, repr(pyObject)))
+                '%s' % (type(concreteEncoder).__name__, debug.show(pyObject)))
             debug.scope.pop()
 
         return pyObject
